@@ -30,7 +30,10 @@ MANIFEST = dict(
           "group of derived and base units that is a pure number only as a whole) carry the group with symbolic scales; trigonometric "
           "functions also of angle units WITH AN OFFSET (symbolic scale of either sign and symbolic offset, lat, lon) over call forms x "
           "operand histories; every reduction form over operand rank 1-2 x axis argument (omitted, 0, 1, -1, None, tuples, keepdims, "
-          "where=); concrete exponent arrays; rounding is outside."),
+          "where=); concrete exponent arrays; the exponent of a power given as a quantity in a scaled dimensionless unit; arctan2 and copysign; "
+          "one ufunc of every unit rule and every branch of the operand-rescale code over SHAPE PAIR (which operand is the smaller / the "
+          "broadcast one, ranks 0-2, extent-1 axes) x OPERAND KIND (quantity, 0-d array, python list of quantities, strided view); "
+          "rounding is outside."),
     design="DESIGN.md section 4 C04",
     technique="symbolic execution of the real Python code over z3 real terms; SMT (QF_NRA / mixed Int-Real with ToInt) obligations per path; counterexample replay")
 EXPLANATION = (
@@ -56,7 +59,15 @@ EXPLANATION = (
     "it with .to / convert_to_units from another angle unit, taken as an element or a view of an array, copied, and inside depth-2 "
     "programs (c*sin(q)+d, sin(q+b) ...). Reductions: ufunc.reduce/.accumulate/.reduceat of + - * / max min hypot and sum, prod, "
     "cumsum, cumprod, max, min (methods and np.*) run on operands of rank 1 and 2 (extents 2 and 3) with every legal axis argument; the "
-    "oracle is NumPy's own reduction of the bare SI magnitudes and, for the dimension, the number of elements each output combines."
+    "oracle is NumPy's own reduction of the bare SI magnitudes and, for the dimension, the number of elements each output combines. "
+    "arctan2 is uninterpreted for the solver and invariant under a common positive factor only: the obligation is that the argument pair "
+    "the real code applies it to is a positive multiple of the pair of SI magnitudes (t0*Y = t1*X with matching signs). copysign (no "
+    "object-dtype loop in NumPy) runs through a stand-in ufunc like divmod. Which operand the rescale code converts is a free choice of "
+    "the implementation that must not show: one ufunc of every unit rule (add, subtract, maximum, hypot, remainder, floor_divide, less, "
+    "equal, arctan2, copysign, multiply, divide) is walked over pairs of operand shapes in which the left, the right or both operands are "
+    "broadcast (() (1,) (2,) (2,1) (1,2) (2,2)) and over what object carries the operand (unyt_quantity, 0-d unyt_array, a python list of "
+    "quantities read by _coerce_iterable_units, a strided view of a longer buffer), values and unit scales symbolic as everywhere. The "
+    "exponent of a power is an operand too: a pure number written as 200 percent or 0.002 km/m must act as the exponent 2 (or be refused)."
 )
 BOUNDS = {
     "quick": "ops {+ - * / (operator, ufunc, in-place, out=), true_divide, maximum/minimum/fmax/fmin, hypot, remainder/mod/fmod/floor_divide/"
@@ -70,7 +81,14 @@ BOUNDS = {
              "sin(q)*cos(q)); REDUCTION FORMS x RANK x AXIS: {add, multiply, divide, maximum}.{reduce, accumulate, reduceat} and sum/prod/"
              "np.prod/cumsum/np.cumprod/max on shapes (2,) [(3,) for reduceat, indices [0,1]] and (2,3) with axis omitted / 0 / 1 / -1 / "
              "None / (0,) / (0,1) / (1,) where NumPy accepts the call, keepdims, a where= mask [T,F,T]; power with a concrete exponent "
-             "ARRAY [2,2] / [2,3] on a base {kxa, km/m} of rank 0 and 1; np.clip, 10 depth-2 programs}; operand unit shapes {atomic, k/m-"
+             "ARRAY [2,2] / [2,3] on a base {kxa, km/m} of rank 0 and 1; np.clip, 10 depth-2 programs; arctan2 {ufunc, out=} over 11 same-dimension unit pairs "
+             "(symbolic, prefixed, compound, table, partly cancelling, bare), same object, two registries, registry.modify; copysign {ufunc, out=} "
+             "over 5 pairs of equal and different dimensions; SHAPE PAIR x OPERAND KIND: {add, subtract, maximum, hypot, less, equal, arctan2, "
+             "copysign, multiply, divide} x shape pairs {(2,)~(), ()~(2,), (2,)~(2,), (1,)~(2,), (2,)~(1,), (2,)~(2,2), (2,1)~(1,2), ()~(2,2)} + "
+             "kinds {0-d array left/right/both, list of quantities left/right against array and scalar, strided view left/right against array "
+             "and scalar} (21 combinations; floor_divide on those with <= 2 result elements, remainder on those with 1), unit pair {xa~xb "
+             "symbolic, km~m} and call form rotating over the combinations [thorough: every pair x form, + minimum, fmod, >=, !=]; power with "
+             "the exponent a QUANTITY (2, 1/2 written in dimensionless / percent / km/m; quantity and 0-d array; base rank 0 and 1)}; operand unit shapes {atomic, k/m-"
              "prefixed, ua*ub, ua/ub, ua**2 with symbolic scales; table pairs that cancel in products: km~m, m~cm, hr~min, km/hr~m/s, "
              "km/m, cm**2~1/m ... with concrete scales and symbolic values; PARTLY CANCELLING pairs (atoms of derived dimension xv "
              "velocity, xf force, xj energy with symbolic scales, and table units N, dyn, J, mJ, erg, W, Pa, mile, mph): 16 quotient pairs "
@@ -94,26 +112,34 @@ BOUNDS = {
                 "ufuncs {add subtract maximum minimum fmax fmin hypot multiply divide true_divide} x three methods x both ranks x every "
                 "legal axis argument on kxa (reduceat of the others than add/multiply: axis omitted/0/1), add/multiply/divide reduce and "
                 "accumulate of rank 2 also on km/m and xa/xs, twelve function forms; exponent arrays [2,2] [3,3] [1/2,1/2] [-1,-1] [2,3] [2] on "
-                "{kxa, km/m, xp, xa/xs}",
+                "{kxa, km/m, xp, xa/xs}; arctan2/copysign over every listed pair; shape pair x operand kind: sixteen ufuncs x 21 combinations x "
+                "three unit pairs (xa~xb, km~m, xa/xs~xb/xt) x every call form; quantity exponents {2, 1/2, -1} x {dimensionless, percent, km/m, cm/m} x {kxa, km/m, xa/xs}",
 }
 OUTSIDE = ("IEEE rounding/overflow/nan (A1); integer and complex payloads (C17); ARITHMETIC on units with an offset (a point plus a point, "
            "the negative or a multiple of a point, the order of two points: C08 decides the point/difference semantics for temperature; "
            "only the trigonometric functions of offset angles, and a point shifted by an offset-free angle inside two programs, are "
            "claimed here); SI-prefixed and compound units built on an offset unit (klat, lat*km/m: what the prefix or the product means "
            "is C03's/C05's question - unyt drops the offset there); where= masks other than on reduce of add/multiply of rank <= 2; "
-           "max/min over all six elements only for the atomic unit (orderings); floor_divide/remainder reductions; exp/log/hyperbolic/non-angle "
+           "max/min over all six elements only for the atomic unit (orderings); floor_divide/remainder reductions; remainder/mod/fmod with a "
+           "broadcast array operand of more than one element (mixed Int/Real obligations of two floors do not finish reliably; their operands "
+           "go through the additive family's rescale code, which is walked over every shape pair and kind); lists of quantities in DIFFERENT units (C16); "
+           "heaviside, nextafter, ldexp, logical_and/or/xor (not arithmetic / not scale-covariant by definition); exp/log/hyperbolic/non-angle "
            "trig, logaddexp, rounding family, frexp/modf/spacing, floor-division of different dimensions (as the property says); "
            "cancellation of same-dimension unit factors with SYMBOLIC scales (sympy cannot hold a z3 term: those pairs use table units, "
            "a partly cancelling pair has its COEFFICIENT pair from the table and on a dimension that no symbolic atom of the pair has - "
            "the left-over group is symbolic, the pairwise coefficient is one of 1e-3, 1e-6, 1/60, 100 ...; "
            "and floor_divide/divmod of two differently spelled symbolic-scale units assume the scales more than 1e-3 apart; the registry.modify variant uses atomic units only: stale prefixed/compound strings after modify are C12's); power with "
-           "SYMBOLIC or quantity-typed exponent arrays (concrete exponent arrays of extent <= 2 are walked); roots of negative values; matmul beyond 2x2; (2,2)@(2,2) with inexact table coefficients; the "
+           "SYMBOLIC exponents or quantity-typed exponent ARRAYS of more than one element (concrete exponent arrays of extent <= 2 and scalar quantity exponents with a concrete number in a table unit are walked); roots of negative values; matmul beyond 2x2; (2,2)@(2,2) with inexact table coefficients; the "
            "ndarray.clip method, multiply/divide.accumulate, cumprod and add/subtract/maximum/minimum/hypot.reduceat (all raise for every "
            "input on this tree; np.clip with mixed units raises - a refusal is not a wrong number). A bare number is read as a dimensionless quantity: `1 + x%` coming back as 'dimensionless' "
            "is not counted against the left-most-unit clause. Registry identity of result units (C13).")
 ASSUMPTIONS = [
     "C04: np.divmod has no object-dtype loop; in symbolic mode the ufunc object handed to the real unyt_array.__array_ufunc__ is a "
     "stand-in equal and hash-equal to np.divmod whose call applies SymReal.__divmod__ element-wise (plain replays use np.divmod / divmod())",
+    "C04: np.copysign has no object-dtype loop either; the same kind of stand-in (equal and hash-equal to np.copysign, applies |x| with the "
+    "sign of y element-wise) is handed to the real __array_ufunc__ in symbolic mode; plain replays use np.copysign",
+    "C04: arctan2 is an uninterpreted function; 'the result is the angle of the point of SI magnitudes' is stated on the argument pair of the "
+    "application the real code makes (a positive multiple of (X, Y) within 1e-6), plain replays compare the values",
     "C04: obligations over floors are first tried on a sound over-approximation (each ToReal(ToInt(a)) replaced by a fresh real k with "
     "k <= a < k+1; the axioms are a conservative extension of the path condition); a counter-model is always one of the exact obligation",
     "C04: discontinuous operations are judged by their characterisation with an admissible band of 1e-8 relative around ties "
@@ -143,7 +169,7 @@ TABLE = {"m": (1.0, "length"), "cm": (0.01, "length"), "km": (1000.0, "length"),
          "N": (1.0, "force"), "dyn": (1e-5, "force"), "J": (1.0, "energy"), "mJ": (1e-3, "energy"), "erg": (1e-7, "energy"),
          "W": (1.0, "power"), "Pa": (1.0, "pressure"), "mile": (1609.344, "length"), "mph": (1609.344 / 3600.0, "velocity"),
          "radian": (1.0, "angle"), "degree": (math.pi / 180.0, "angle"), "arcmin": (math.pi / 10800.0, "angle"),
-         "dimensionless": (1.0, "dimensionless")}
+         "dimensionless": (1.0, "dimensionless"), "percent": (0.01, "dimensionless")}
 
 
 def F(a, b=1):
@@ -353,6 +379,24 @@ def trig_rewrite(got, expected):
     return And(*conds) if conds else True, SymReal(new)
 
 
+def atan2_ok(g, X, Y):
+    """g: what the library returned for arctan2 of operands whose SI magnitudes are X (first) and Y (second). arctan2 is uninterpreted
+    for the solver and invariant under a common POSITIVE factor of its arguments only, so the obligation is stated on the argument
+    pair (t0, t1) the real code applies it to: it must be a positive multiple of (X, Y) up to rounding - t0*Y = t1*X, t0 has the sign
+    of X, t1 the sign of Y, neither vanishes unless its magnitude does. Plain runs compare the values."""
+    if is_sym(g) and (is_sym(X) or is_sym(Y)):
+        import z3
+        from symx.core import lift
+        w = (X if is_sym(X) else SymReal(lift(X))).arctan2(Y)
+        t = z3.simplify(g.t)              # the result unit's scale 1 was multiplied in: f(a, b)*1 -> f(a, b)
+        if z3.is_app(t) and t.num_args() == 2 and t.decl().eq(w.t.decl()):
+            t0, t1 = SymReal(t.arg(0)), SymReal(t.arg(1))
+            return And(close(t0 * Y, t1 * X, extra=0), t0 * X >= 0, t1 * Y >= 0,
+                       Or(exact_eq(X, 0.0), Not(exact_eq(t0, 0.0))), Or(exact_eq(Y, 0.0), Not(exact_eq(t1, 0.0))))
+        return close(g, w, extra=1e-9)
+    return close(g, math.atan2(X, Y), extra=1e-9)
+
+
 def bval(b):
     """a comparison result element -> python bool / SymBool"""
     if isinstance(b, (bool, np.bool_)):
@@ -551,6 +595,7 @@ class Bin:
                  ynonzero=False, bare_result=False, si_check=None):
         self.name, self.family, self.R, self.op, self.iop = name, family, R, op, iop
         self.si_check = si_check
+        self.standin = None            # symbolic-mode stand-in for a ufunc without an object-dtype loop (see _ObjBinary)
         self.ufunc = ufunc or name
         self.unit_left, self.D, self.discontinuous, self.ynonzero, self.bare_result = unit_left, D, discontinuous, ynonzero, bare_result
 
@@ -597,9 +642,51 @@ BIN = {b.name: b for b in [
     Bin("greater_equal", "cmp", lambda a, b: a >= b, operator.ge, bare_result=True),
     Bin("equal", "cmp", lambda a, b: exact_eq(a, b), operator.eq, bare_result=True),
     Bin("not_equal", "cmp", lambda a, b: Not(exact_eq(a, b)), operator.ne, bare_result=True),
+    # arctan2(y, x) of two commensurable quantities: the angle of the point (X, Y) of SI magnitudes, a pure number; the second operand
+    # goes through the same rescale block as the additive family (_arctan2_unit)
+    Bin("arctan2", "atan2", None, D=_d_none),
+    # copysign(x, y): |x| with the sign of y, in the unit of x; y may have any dimension (positive scales keep its sign)
+    Bin("copysign", "copysign", lambda a, b: ite(b >= 0, vabs(a), -vabs(a)), D=_d_left, unit_left=True),
 ]}
 
 FORMS = ["op", "ufunc", "iop", "out"]
+
+
+class _ObjBinary:
+    """np.copysign has no object-dtype loop, so NumPy refuses a symbolic payload before unyt's code is reached. As for divmod (see
+    _ObjDivmod) the ufunc object handed to the real unyt_array.__array_ufunc__ in symbolic mode is a stand-in equal and hash-equal to
+    the real ufunc whose call applies the SymReal method element-wise; unyt's own code runs unchanged, plain runs use the real ufunc."""
+
+    def __init__(self, real, fn):
+        self.real = real
+        self.py = np.frompyfunc(fn, 2, 1)
+
+    def __eq__(self, o):
+        return o is self.real or o is self
+
+    def __hash__(self):
+        return hash(self.real)
+
+    def __getattr__(self, k):
+        return getattr(self.real, k)
+
+    def __call__(self, a, b, out=None, **kw):
+        v = self.py(a, b)
+        if out is not None:
+            out[...] = v
+            return out
+        return v
+
+
+def _copysign(a, b):
+    if is_sym(a):
+        return a.copysign(b)
+    if is_sym(b):
+        return ite(b >= 0, abs(a), -abs(a))
+    return math.copysign(a, b)
+
+
+BIN["copysign"].standin = _ObjBinary(np.copysign, _copysign)
 
 
 def assume_distinct(ctx, spec0, spec1, s0, s1):
@@ -611,6 +698,12 @@ def assume_distinct(ctx, spec0, spec1, s0, s1):
 def apply_binary(ctx, b, form, A, Bq, reg, out_unit, rshape):
     """-> (result, out_object_or_None)"""
     uf = getattr(np, b.ufunc)
+    if b.standin is not None and ctx.symbolic:
+        first = A if hasattr(A, "__array_ufunc__") and hasattr(A, "units") else Bq
+        o = out_quantity(ctx, reg, rshape) if form == "out" else None
+        with as_ufunc_global(ctx.mods, b.standin):
+            r = first.__array_ufunc__(b.standin, "__call__", A, Bq, **({} if o is None else dict(out=(o,))))
+        return r, o
     if form == "op":
         return b.op(A, Bq), None
     if form == "ufunc":
@@ -629,7 +722,35 @@ def apply_binary(ctx, b, form, A, Bq, reg, out_unit, rshape):
     raise KeyError(form)
 
 
-def make_binary_case(opname, form, spec0, spec1, sh0=(), sh1=(), tag="", dims_override=None, same_object=False, variant=None):
+# OPERAND KIND (what object carries the operand; the unit, the numbers and the shape stay what they are):
+#   ""       unyt_quantity for shape (), unyt_array otherwise          arr0d   a 0-d unyt_array (shape () but not a quantity)
+#   qlist    a python list of the unyt_quantity elements of a 1-d operand (unyt's _coerce_iterable_units reads it)
+#   view     the operand is a strided view [::2] of a buffer twice as long (other numbers in between)
+KINDS = ["", "arr0d", "qlist", "view"]
+
+
+def as_kind(ctx, Q, kind, name):
+    if not kind:
+        return Q
+    ua = ctx.mods["unyt"].unyt_array
+    if kind == "arr0d":
+        assert np.shape(Q) == ()
+        return ua(np.asarray(Q.d).reshape(()).copy() if ctx.symbolic else np.array(float(Q.d)), Q.units)
+    if kind == "qlist":
+        assert len(np.shape(Q)) == 1
+        return [Q[i] for i in range(len(Q))]
+    if kind == "view":
+        assert len(np.shape(Q)) == 1
+        n = len(Q)
+        big = ctx.reals(name + "pad", (2 * n,))
+        big = big.copy()
+        big[::2] = Q.d
+        return ua(big, Q.units)[::2]
+    raise KeyError(kind)
+
+
+def make_binary_case(opname, form, spec0, spec1, sh0=(), sh1=(), tag="", dims_override=None, same_object=False, variant=None,
+                     kinds=("", "")):
     """variant: None - both operands in one registry; 'tworeg' - the second operand lives in a SECOND registry in which the
     same unit names carry their own (symbolic) scales; 'modify' - one registry, the second operand is created after the real
     registry.modify(atom, new_scale) of every harness atom of its unit. In both variants units of the SAME SPELLING differ in
@@ -660,7 +781,15 @@ def make_binary_case(opname, form, spec0, spec1, sh0=(), sh1=(), tag="", dims_ov
         xs = bcast(elements(x), sh0, rshape)
         ys = bcast(elements(y), sh1, rshape)
         out_unit = None
+        A0, B0 = A, Bq
+        A, Bq = as_kind(ctx, A, kinds[0], "x"), as_kind(ctx, Bq, kinds[1], "y")
+        if hasattr(A, "units"):
+            ua_before = A.units
         r, o = apply_binary(ctx, b, form, A, Bq, reg, out_unit, rshape)
+        if kinds[0] == "qlist":
+            A = A0
+        if kinds[1] == "qlist":
+            Bq = B0
         # after registry.modify the registry no longer describes units created before it (C12's subject): no re-reading there
         check_binary_result(ctx, b, r, xs, ys, s0, s1, d0, d1, None if variant == "modify" else reg, A_units=ua_before)
         if o is not None:
@@ -674,7 +803,8 @@ def make_binary_case(opname, form, spec0, spec1, sh0=(), sh1=(), tag="", dims_ov
                                                   getattr(A, "units", None) is ua_before))
         ctx.observe("result", payload(r) if not b.bare_result else [bool(v) for v in elements(r)])
 
-    cid = f"C04/{opname}/{form}/{spec0.text}~{spec1.text}/{shape_tag(sh0)}~{shape_tag(sh1)}{tag}"
+    k0, k1 = (":" + kinds[0] if kinds[0] else ""), (":" + kinds[1] if kinds[1] else "")
+    cid = f"C04/{opname}/{form}/{spec0.text}~{spec1.text}/{shape_tag(sh0)}{k0}~{shape_tag(sh1)}{k1}{tag}"
     return Case(cid, h, bounds="symbolic: values, scales", budget_s=600, max_paths=4000,
                 weight=(8 if b.discontinuous else 1) * (1 + len(sh0) + len(sh1)))
 
@@ -690,6 +820,10 @@ def check_binary_result(ctx, b, r, xs, ys, s0, s1, d0, d1, reg, A_units=None, la
         ctx.require(label + "comparison result is bare", not hasattr(r, "units"))
         return
     got = si_of(r)
+    if b.family == "atan2":
+        ctx.require(label + "si", And(len(got) == len(X), *[atan2_ok(g, p, q) for g, p, q in zip(got, X, Y)]))
+        ctx.require(label + "result is a pure number", (not hasattr(r, "units")) or And(r.units.is_dimensionless, exact_eq(r.units.base_value, 1.0)))
+        return
     if b.family == "floordiv":
         require_floor(ctx, label + "si", lambda st: And(len(got) == len(X), *[floor_ok(g, p, q, got, st) for g, p, q in zip(got, X, Y)]))
     elif b.family == "mod":
@@ -877,6 +1011,42 @@ def make_power_case(e, form, spec, sh=(), tag=""):
         ctx.observe("result", payload(r))
     et = f"{e.numerator}" if e.denominator == 1 else f"{e.numerator}_{e.denominator}"
     return Case(f"C04/power/{form}/{spec.text}^{et}/{shape_tag(sh)}{tag}", h, budget_s=600, weight=3)
+
+
+def make_power_qexp_case(e, eunit, form, spec, sh=(), ekind="", tag=""):
+    """the EXPONENT is itself a quantity: the pure number e written in a dimensionless unit (dimensionless, percent, km/m, cm/m - table
+    units, the exponent ends up inside a sympy unit expression and must be a number). The exponent is an operand like any other:
+    writing it as 200 percent or 0.002 km/m instead of 2 must not change the result. A refusal (UnitOperationError) of an exponent
+    that is not written as a plain number is acceptable, a result for another exponent is not. ekind: "" quantity, arr0d 0-d array."""
+    e = Fraction(e)
+    escale = Fraction(TABLE[eunit.split("/")[0]][0]).limit_denominator(10**6) / (Fraction(TABLE[eunit.split("/")[1]][0]).limit_denominator(10**6) if "/" in eunit else 1)
+    raw = float(e / escale)
+
+    def h(ctx):
+        reg = ctx.registry([])
+        kw = dict(pos=True)
+        A, x, s0, d0 = spec.quantity(ctx, reg, "x", sh, **kw)
+        ua = A.units
+        M = ctx.mods["unyt"]
+        E = M.unyt_quantity(raw, eunit, registry=reg) if not ekind else M.unyt_array(np.array(raw), eunit, registry=reg)
+        res = call(operator.pow, A, E) if form == "op" else call(np.power, A, E)
+        if res[0] == "raise":
+            ctx.require("refuses only an exponent that is not written as a plain number, with UnitOperationError",
+                        escale != 1 and isinstance(res[1], M.exceptions.UnitOperationError))
+            ctx.observe("raised", type(res[1]).__name__)
+            return
+        r = res[1]
+        dims_ok = same_dims(dims_of(ctx, r), d0 ** _sym_exp(e))
+        ctx.require("dims", dims_ok)
+        if dims_ok:          # (a result of another dimension took another exponent: reported once, by the obligation above)
+            got = si_of(r)
+            ctx.require("si", And(len(got) == len(elements(x)), *[close(g, ppow(xv * s0, e)) for g, xv in zip(got, elements(x))]))
+            ctx.require("result unit agrees with its registry", wellformed(ctx, r, reg))
+        ctx.require("operand untouched", And(*[exact_eq(p, q) for p, q in zip(payload(A), elements(x))], A.units is ua))
+        ctx.observe("result", payload(r))
+    et = f"{e.numerator}" if e.denominator == 1 else f"{e.numerator}_{e.denominator}"
+    ek = ":" + ekind if ekind else ""
+    return Case(f"C04/power/{form}/{spec.text}^({et} as {eunit.replace('/', ' per ')}{ek})/{shape_tag(sh)}{tag}", h, budget_s=600, weight=2)
 
 
 def make_power_array_case(exps, form, spec, sh, tag=""):
@@ -1134,7 +1304,7 @@ def make_outer_case(ufn, spec0, spec1, sh0, sh1, tag=""):
     return Case(f"C04/{ufn}.outer/{spec0.text}~{spec1.text}/{shape_tag(sh0)}~{shape_tag(sh1)}{tag}", h, budget_s=600)
 
 
-DOT_FORMS = ["method", "np.dot", "matmul", "np.matmul", "matmul.out", "np.inner", "np.vdot"]
+DOT_FORMS = ["method", "np.dot", "matmul", "np.matmul", "matmul.out", "np.inner", "np.vdot"] + (["np.vecdot"] if hasattr(np, "vecdot") else [])
 
 
 def make_dot_case(form, spec0, spec1, sh0, sh1, tag=""):
@@ -1143,7 +1313,7 @@ def make_dot_case(form, spec0, spec1, sh0, sh1, tag=""):
         A, x, s0, d0 = spec0.quantity(ctx, reg, "x", sh0)
         Bq, y, s1, d1 = spec1.quantity(ctx, reg, "y", sh1)
         X, Y = si_array(x, s0), si_array(y, s1)
-        want = np.dot(X, Y) if form not in ("np.inner",) else np.inner(X, Y)
+        want = np.dot(X, Y) if form not in ("np.inner", "np.vecdot") else (np.inner(X, Y) if form == "np.inner" else np.vecdot(X, Y))
         o = None
         if form == "method":
             r = A.dot(Bq)
@@ -1157,6 +1327,8 @@ def make_dot_case(form, spec0, spec1, sh0, sh1, tag=""):
             r = np.inner(A, Bq)
         elif form == "np.vdot":
             r = np.vdot(A, Bq)
+        elif form == "np.vecdot":
+            r = np.vecdot(A, Bq)
         else:
             o = out_quantity(ctx, reg, np.shape(want))
             r = np.matmul(A, Bq, out=o)
@@ -1474,7 +1646,12 @@ def cases(tier, mods):
     check_names(mods, NAMES)
     quick = tier == "quick"
     out = []
-    add = out.append
+    seen_ids = set()
+
+    def add(c):
+        if c.id not in seen_ids:              # a combination reached by two of the sweeps below is one case
+            seen_ids.add(c.id)
+            out.append(c)
 
     def binary(ops, pairs, shapes, forms=None, same=False, variant=None):
         for opn in ops:
@@ -1553,6 +1730,53 @@ def cases(tier, mods):
         binary(["multiply"], PARTIAL_MUL + PARTIAL_MUL_TABLE, SC + ARR)
         binary(addops + cmpops, PARTIAL_ADD + PARTIAL_ADD_TABLE, SC + ARR[2:])
         binary(modops, PARTIAL_ADD + PARTIAL_ADD_TABLE, SC)
+    # arctan2 (second operand rescaled like a sum's, result a pure number) and copysign (sign of an operand of ANY dimension)
+    atan_pairs = ["xa~xb", "kxa~xb", "xa/xs~xb/xt", "xa**2~xb*xc", "xg~xh", "xp~xq", "xp~bare", "bare~xp", "m~cm", "km~m", "km/hr~m/s",
+                  "km/m~dimensionless", "xv~xa/xs", "mJ/cm**2~N/m"]
+    csign_pairs = ["xa~xm", "kxa~xm", "xa~xb", "km~m", "km/m~s", "xa~bare", "xp~xa", "xa/xs~xb/xt"]
+    binary(["arctan2"], atan_pairs if not quick else atan_pairs[:2] + atan_pairs[5:11] + atan_pairs[12:], SC)
+    binary(["copysign"], csign_pairs if not quick else csign_pairs[:5], SC)
+    binary(["arctan2", "copysign"], ["xa~xa"], SC, same=True)
+    binary(["arctan2"], ["xa~xa"] if quick else SAME_SPELLING, SC, variant="tworeg")
+    binary(["arctan2"], ["xa~xa"], SC, variant="modify")
+    # SHAPE PAIR x OPERAND KIND of the two operands, for one ufunc of every unit rule and every branch of the rescale block: which operand
+    # is the smaller one / is broadcast (left, right, both), ranks 0-2, extent-1 axes, a quantity against a 0-d array, a python list
+    # of quantities, a strided view
+    BC = [((1,), (2,)), ((2,), (1,)), ((2,), (2, 2)), ((2, 1), (1, 2)), ((), (2, 2))]
+    KSH = [(("arr0d", ""), ((), (2,))), (("", "arr0d"), ((2,), ())), (("arr0d", ""), ((), ())), (("", "arr0d"), ((), ())),
+           (("arr0d", "arr0d"), ((), ())),
+           (("qlist", ""), ((2,), (2,))), (("", "qlist"), ((2,), (2,))), (("qlist", ""), ((2,), ())), (("", "qlist"), ((), (2,))),
+           (("view", ""), ((2,), (2,))), (("", "view"), ((2,), (2,))), (("view", ""), ((2,), ())), (("", "view"), ((), (2,)))]
+    combos = [(("", ""), shp) for shp in ARR + BC] + KSH
+    same_dim = ["xa~xb", "km~m"] if quick else ["xa~xb", "km~m", "xa/xs~xb/xt"]
+    rep_ops = [("add", same_dim), ("subtract", same_dim), ("maximum", same_dim), ("hypot", same_dim), ("remainder", same_dim),
+               ("floor_divide", same_dim), ("less", same_dim), ("equal", same_dim), ("arctan2", same_dim),
+               ("copysign", ["xa~xm", "km~m"]), ("multiply", ["xa~xm", "km~1/m"]), ("divide", ["xa~xm", "km~m"])]
+    if not quick:
+        rep_ops += [("minimum", same_dim[:2]), ("fmod", same_dim[:2]), ("greater_equal", same_dim[:2]), ("not_equal", same_dim[:2])]
+    for i, (opn, prs) in enumerate(rep_ops):
+        b = BIN[opn]
+        for j, (kd, (sh0, sh1)) in enumerate(combos):
+            rsh = np.broadcast_shapes(sh0, sh1)
+            if b.discontinuous and int(np.prod(rsh)) > (2 if b.family == "floordiv" else 1):
+                continue                               # floors: mixed Int/Real obligations - floor_divide (its own rescale block) on
+                #                                        at most 2 elements, the remainders (the additive family's block) on 1
+            fs = [f for f in b.forms() if not (f == "iop" and (rsh != sh0 or kd[0] == "qlist"))]
+            if kd == ("", "") and (sh0, sh1) in ARR and opn in ("add", "subtract", "multiply", "divide") and quick:
+                continue                               # walked above
+            sel = [(prs[(i + j) % len(prs)], fs[(i + j) % len(fs)])] if quick else [(p, f) for p in prs for f in fs]
+            for p, f in sel:
+                add(make_binary_case(opn, f, *pair(p), sh0, sh1, kinds=kd))
+    # the exponent of a power as a quantity written in a (scaled) dimensionless unit
+    for eu in (("dimensionless", "percent", "km/m") if quick else ("dimensionless", "percent", "km/m", "cm/m")):
+        for e in ((2, F(1, 2)) if quick else (2, F(1, 2), -1)):
+            for f in ("op", "ufunc"):
+                for sp in (["kxa"] if quick else ["kxa", "km/m", "xa/xs"]):
+                    if sp == "km/m" and eu in ("percent", "cm/m") and abs(e) > 1:
+                        continue                       # 1000**200 is not a float
+                    add(make_power_qexp_case(e, eu, f, U_(sp)))
+        add(make_power_qexp_case(2, eu, "ufunc", U_("kxa"), ekind="arr0d"))
+        add(make_power_qexp_case(2, eu, "op", U_("kxa"), (2,)))
     for p in (["xv~xa/xs", "xv*g~kg*xa/xs", "mJ/cm**2~N/m"] if quick else PARTIAL_DIV + PARTIAL_DIV_TABLE):
         add(make_outer_case("divide", *pair(p), (2,), (2,)))
     for p in (["xv*g~xs/kg/xa", "mJ/cm**2~m/N"] if quick else PARTIAL_MUL + PARTIAL_MUL_TABLE):
@@ -1629,6 +1853,8 @@ def cases(tier, mods):
                 if f == "np.vdot" and (len(sh0) > 1 or len(sh1) > 1):
                     continue
                 if f == "np.inner" and len(sh0) != len(sh1):
+                    continue
+                if f == "np.vecdot" and sh0 != sh1:
                     continue
                 if quick and sh0 == (2, 2) and p != "xa~xm":
                     continue
